@@ -50,6 +50,6 @@ def run(chk, rule="R-REGEN-IDENTICAL", files_of_interest=None):
                     else:
                         det = "files differ in length"
                 chk.ob(rule, rel, same, loc=rel, detail=det)
-        chk.floor(rule + ":generated-files", n, 6)
+        chk.floor(rule + ":generated-files", n, 3 if files_of_interest else 6)
     finally:
         shutil.rmtree(tmp, ignore_errors=True)
